@@ -3,7 +3,10 @@
 Small *real* networks built through the Python API: T1 switched LAN (a - switch - b), T2 routed (a - router - b), T3
 firewall with three zones (external / internal / dmz, one host per zone; every ordered pair of zones is a placement of
 attacker a and victim b), T4 the same firewall with a core router behind its internal port and the victim in the subnet
-behind that router (static routes both ways), attacker in the dmz or outside.  The attacker carries data-manipulation-bot, ransomware-script, dos-bot, database-client,
+behind that router (static routes both ways), attacker in the dmz or outside.  T2/T3 also run with extra route-table content
+on the router/firewall that must not matter for directly connected destinations (``ROUTES``: a default route via the external
+or the dmz side, a covering static route via the external side; deny shapes any / dstself / implicit in the list that guards
+the victim).  The attacker carries data-manipulation-bot, ransomware-script, dos-bot, database-client,
 ftp-client, nmap, terminal, web-browser and a C2 application; the victim carries database-service, ftp-server, web-server,
 terminal, users, files and the C2 counterpart.  The C2 suite cannot run both of its halves on one node (both listen on the
 same ports and both answer keep-alives), so the C2 arrangement is a harness dimension ``role``: ``bA`` = beacon on a /
@@ -407,6 +410,11 @@ class Sut:
     pass
 
 
+class WarmUpFailed(Exception):
+    """The baseline connectivity of a configuration is broken (not a verdict about C06: nothing can be said about a block
+    when the attacker cannot reach the victim without it)."""
+
+
 def _install(node, *classes):
     for c in classes:
         node.software_manager.install(c)
@@ -449,8 +457,27 @@ def _permit_all(acl, position):
     acl.add_rule(action=ACLAction.PERMIT, position=position)
 
 
+ROUTES = {
+    # route-table contents that must not matter for directly connected destinations (the next hops are unused addresses)
+    "def-ext": ("default", "10.0.1.254"),     # default route, next hop on the external side (T2: on the attacker's side)
+    "def-dmz": ("default", "10.0.3.254"),     # default route, next hop on the dmz side
+    "cover-ext": ("10.0.0.0/8", "10.0.1.254"),  # static route covering every connected subnet, via the external side
+}
+
+
+def _add_routes(m, kind):
+    if not kind:
+        return
+    what, hop = ROUTES[kind]
+    if what == "default":
+        m.route_table.set_default_route_next_hop_ip_address(IPv4Address(hop))
+    else:
+        m.route_table.add_route(address="10.0.0.0", subnet_mask="255.0.0.0", next_hop_ip_address=hop)
+
+
 def build(cfg):
-    """cfg = {"topo": "T1"|"T2"|"T3:<zoneA>><zoneB>", "role", "placement": "cold"|"warm", "block": [...]}."""
+    """cfg = {"topo": "T1"|"T2"|"T3:<zoneA>><zoneB>"|"T4:<zoneA>", "role", "placement": "cold"|"warm", "block": [...],
+    optional "routes": a key of ROUTES (extra route-table content on the router/firewall of T2/T3)}."""
     seams.reset()
     install_monitors()
     # malicious-network-event capture on (class-level switch, process-local): the victim's NIC counts attack payloads it receives
@@ -473,6 +500,7 @@ def build(cfg):
         a = H.host("computer", "a", u.a_ip, gw="10.0.1.1")
         b = H.host("server", "b", u.b_ip, gw="10.0.2.1")
         m = H.router("m", {1: ("10.0.1.1", "255.255.255.0"), 2: ("10.0.2.1", "255.255.255.0")})
+        _add_routes(m, cfg.get("routes"))
         u.port_a, u.port_b = 1, 2
         for n in (a, b, m):
             s.net.add_node(n)
@@ -491,6 +519,7 @@ def build(cfg):
                                             "dmz_port": {"ip_address": ZONES["dmz"][1]}}})
         for ln in FW_LISTS:
             _permit_all(getattr(m, ln + "_acl"), 1)
+        _add_routes(m, cfg.get("routes"))
         u.port_a, u.port_b = ZONES[za][2], ZONES[zb][2]
         u.c = c
         for n in (a, b, c, m):
@@ -657,11 +686,11 @@ def warm_up(u):
     do_event(u, ["tick"])
     u.warm = res + [["gateway_ping_login_sessions", gw]]
     if gw and not (gw[0] is True and gw[1] == "success" and len(gw[2]) >= 2):
-        raise engine.HarnessError("warm-up with the gateway failed on %r: %r" % (u.cfg, gw))
+        raise WarmUpFailed("with the gateway: %r" % (gw,))
     ok = res[0][1] is True and res[1][1] == "success" and res[2][1] == "success" and res[3][1] == "success" and res[4][1] and \
         res[5][1] >= 1 and res[6][1] >= 1
     if not ok:
-        raise engine.HarnessError("warm-up failed on %r: %r" % (u.cfg, res))
+        raise WarmUpFailed(repr(res))
 
 
 def _acl_path(u, lname):
@@ -754,6 +783,8 @@ def is_full_block(cfg):
 def block_kind(cfg):
     b = cfg["block"]
     dev = {"T1": "switch", "T2": "router"}.get(cfg["topo"], "firewall+core-router" if cfg["topo"].startswith("T4") else "firewall")
+    if cfg.get("routes"):
+        dev += "[routes:%s]" % cfg["routes"]
     if b[0] == "acl":
         return "%s-acl:%s:%s" % (dev, b[1], b[2])
     if b[0] == "port":
@@ -771,6 +802,8 @@ def block_mech(cfg):
     """Coarser than block_kind: device + mechanism (+ which list), without the rule shape."""
     b = cfg["block"]
     k = block_kind(cfg)
+    if cfg.get("routes"):
+        k = k.replace("[routes:%s]" % cfg["routes"], "[extra-routes]")  # which route is in the detail, not in the signature
     if b[0] == "acl":
         return k.rsplit(":", 1)[0]
     if b[0] == "link":
@@ -978,7 +1011,12 @@ def explore(item):
     cfg, depth, t_end = item
     t0 = time.time()
     control = cfg["block"][0] == "none"
-    u = prepare(cfg)
+    try:
+        u = prepare(cfg)
+    except WarmUpFailed as e:
+        if control and not cfg.get("routes"):
+            raise engine.HarnessError("warm-up failed in the plain control configuration %r: %s" % (cfg, e))
+        return {"warm_failed": str(e), "wall": round(time.time() - t0, 2)}
     prep_viols = _annot(u.mon.drain(), cfg, [], None)
     horizon = depth + SETTLE
     (ref, ref_viols, _), = [r for _, r in engine.fork_each([0], lambda _: reference_states(u, horizon))]
@@ -1018,13 +1056,16 @@ def run_linear(cfg, history, event):
     return out + agg.viols, dg
 
 
-def _leak_sig(v, shape=False, warm_only=False):
-    """Forms of a 'frames-reached-victim' signature under an ACL block (see refine_signatures); None for other violations."""
+def _leak_sig(v, shape=False, warm_only=False, plain=False):
+    """Forms of a 'frames-reached-victim' signature under an ACL block (see refine_signatures); None for other violations.
+    ``plain``: without the tag of the extra route-table content."""
     cfg = (v.get("params") or {}).get("cfg") or {}
     b = cfg.get("block") or [None]
     mech = block_mech(cfg) if b[0] == "acl" else None
     if mech is None or not v["signature"].endswith("|frames-reached-victim") or not v["signature"].startswith(mech):
         return None
+    if plain:
+        mech = block_mech({k: x for k, x in cfg.items() if k != "routes"})
     return "%s%s%s|frames-reached-victim" % (mech, ":" + b[2] if shape else "", ":after-warm-up-only" if warm_only else "")
 
 
@@ -1033,7 +1074,8 @@ def refine_signatures(viols, tested):
     defect of the forwarding path (signature without the shape); a leak that shows only under some of the shapes is a defect
     of those shapes (e.g. a wildcard range that does not match): the shape becomes part of the signature. Likewise a leak that
     shows only after the warm-up although the cold placement was tested depends on what the device learned/holds from the
-    warm-up (sessions, ARP): ':after-warm-up-only'."""
+    warm-up (sessions, ARP): ':after-warm-up-only'. A leak on a device with extra route-table content carries the tag
+    '[extra-routes]' unless the same list leaks under the same shape without that content too (then it is that defect)."""
     leaking = {}
     for v in viols:
         base = _leak_sig(v)
@@ -1042,20 +1084,28 @@ def refine_signatures(viols, tested):
             d = leaking.setdefault((c["topo"], base), (set(), set()))
             d[0].add(c["block"][2])
             d[1].add(c["placement"])
+    flags = {}
+    for k, (shapes, pls) in leaking.items():
+        t_shapes, t_pls = tested.get(k, (set(), set()))
+        flags[k] = (shapes != t_shapes, pls == {"warm"} and "cold" in t_pls)
     for v in viols:
         base = _leak_sig(v)
         if not base:
             continue
-        k = (v["params"]["cfg"]["topo"], base)
-        t_shapes, t_pls = tested.get(k, (set(), set()))
-        v["signature"] = _leak_sig(v, shape=leaking[k][0] != t_shapes, warm_only=leaking[k][1] == {"warm"} and "cold" in t_pls)
+        c = v["params"]["cfg"]
+        k = (c["topo"], base)
+        kp = (c["topo"], _leak_sig(v, plain=True))
+        if c.get("routes") and kp in leaking and c["block"][2] in leaking[kp][0]:
+            v["signature"] = _leak_sig(v, flags[kp][0], flags[kp][1], plain=True)
+        else:
+            v["signature"] = _leak_sig(v, flags[k][0], flags[k][1])
     return viols
 
 
 def replay(doc):
     viols = run_linear(doc["params"]["cfg"], doc.get("history") or [], doc.get("event"))[0]
     for v in viols:
-        forms = [_leak_sig(v, a, b) for a in (False, True) for b in (False, True)]
+        forms = [_leak_sig(v, a, b, c) for a in (False, True) for b in (False, True) for c in (False, True)]
         if doc.get("signature") in forms:
             v["signature"] = doc["signature"]
     return viols
@@ -1119,6 +1169,42 @@ def core_configs(placements):
         add("T4:dmz", ["acl", "internal_inbound", sh], [("cold", "bA"), ("warm", "sA")])
     for sh in ("any", "dstself", "implicit"):
         add("T4:ext", ["acl", "internal_inbound", sh], [("warm", "bA")])
+    out += routed_configs(False)
+    return out
+
+
+ROUTE_SHAPES = ["any", "dstself", "implicit"]
+
+
+def routed_configs(wide):
+    """T3/T2 with route-table content on the firewall/router that must not matter for directly connected destinations: a
+    default route via the external or the dmz side, a covering static route via the external side."""
+    out = []
+
+    def add(topo, routes, block, pls):
+        for pl, role in pls:
+            out.append({"topo": topo, "role": role, "placement": pl, "block": list(block), "routes": routes})
+
+    two = [("cold", "bA"), ("warm", "sA")]
+    for routes in ROUTES:  # attacker in the dmz, victim directly on the internal LAN, block in internal-inbound
+        for sh in ROUTE_SHAPES:
+            add("T3:dmz>int", routes, ["acl", "internal_inbound", sh], ALL_PLACEMENTS if wide else two)
+    others = [(za, zb) for za in ZONES for zb in ZONES if za != zb and (za, zb) != ("dmz", "int")]
+    for za, zb in others:
+        for routes in (ROUTES if wide else ["def-ext"]):
+            for ln in (fw_lists(za, zb) if wide else fw_lists(za, zb)[1:]):
+                for sh in (ROUTE_SHAPES if wide else ["any"]):
+                    if sh == "implicit" and ln.startswith("external"):
+                        continue
+                    if not wide and (za, zb) not in (("ext", "int"), ("int", "dmz"), ("ext", "dmz")):
+                        continue
+                    add("T3:%s>%s" % (za, zb), routes, ["acl", ln, sh], two if wide else [("warm", "bA")])
+    if wide:
+        for routes in ROUTES:
+            add("T3:dmz>int", routes, ["acl", "dmz_outbound", "any"], two)
+    for routes in ("def-ext", "cover-ext"):  # plain router: the routes point away from the victim
+        for sh in (ROUTE_SHAPES if wide else ["any", "dstself"]):
+            add("T2", routes, ["acl", "acl", sh], two if wide else [("warm", "bA")])
     return out
 
 
@@ -1154,6 +1240,7 @@ def wide_configs():
                 if sh == "implicit" and ln.startswith("external"):
                     continue
                 add("T4:%s" % za, ["acl", ln, sh])
+    out += routed_configs(True)
     return out
 
 
@@ -1168,6 +1255,8 @@ def control_configs():
     out.append({"topo": "T3:int>dmz", "role": "sA", "placement": "warm", "block": ["none"]})
     out.append({"topo": "T4:dmz", "role": "bA", "placement": "warm", "block": ["none"]})
     out.append({"topo": "T4:ext", "role": "sA", "placement": "warm", "block": ["none"]})
+    out.append({"topo": "T3:dmz>int", "role": "bA", "placement": "warm", "block": ["none"], "routes": "def-ext"})
+    out.append({"topo": "T3:dmz>int", "role": "sA", "placement": "warm", "block": ["none"], "routes": "cover-ext"})
     return out
 
 
@@ -1178,9 +1267,14 @@ def plan(tier):
     if tier != "thorough":
         items = [(c, 2) for c in control_configs()] + [(c, 2) for c in core_configs(QUICK_PLACEMENTS)]
     else:
-        deep = core_configs(ALL_PLACEMENTS)
+        core = core_configs(ALL_PLACEMENTS)
+        deep = [c for c in core if not c.get("routes")]  # the routed variants stay at depth 2 (the thorough tier adds breadth there)
         have = {key(c) for c in deep}
-        items = [(c, 2) for c in control_configs()] + [(c, 3) for c in deep] + [(c, 2) for c in wide_configs() if key(c) not in have]
+        items = [(c, 2) for c in control_configs()] + [(c, 3) for c in deep]
+        for c in wide_configs() + [c for c in core if c.get("routes")]:
+            if key(c) not in have:
+                have.add(key(c))
+                items.append((c, 2))
     return items
 
 
@@ -1200,7 +1294,12 @@ def run(tier, is_known):
     capped = False
     det_items = []
     warm_seen = {}
+    warm_failed = []
     for (cfg, d, _), r in engine.pmap("c06-explore", explore, items):
+        if "warm_failed" in r:
+            # without the block the attacker cannot reach the victim in this configuration: nothing to check (and not exhaustive)
+            warm_failed.append({"cfg": cfg, "warm_up": r["warm_failed"]})
+            continue
         for k in tot:
             tot[k] += r[k]
         for dst, src in ((hist, r["hist"]), (raised, r["raised"]), (mon, r["mon"]), (nsig, r["nsig"])):
@@ -1237,7 +1336,7 @@ def run(tier, is_known):
     ineffective = [k for k in menu_labels if not effects.get(k)]
     full = [p for p in per if is_full_block(p["cfg"])]
     partial = [p for p in per if p["cfg"]["block"][0] == "acl" and p["cfg"]["block"][2] in PARTIAL_SHAPES]
-    exhaustive = not capped
+    exhaustive = not capped and not warm_failed
     cov = {
         "states": tot["nodes"], "transitions": tot["transitions"],
         "traces_validated_against_impl": tot["compared"] + mon.get("verdicts", 0),
@@ -1263,6 +1362,7 @@ def run(tier, is_known):
         "ineffective_events": ineffective,
         "warm_up_results": warm_seen,
         "determinism_replays": len(picks),
+        "configurations_skipped_because_the_warm_up_failed": warm_failed,
         "caps": {"time_budget_s": budget, "hit": capped},
         "violations_by_clause_signature": nsig, "violations_kept_per_signature_and_configuration": KEEP,
         "block_kinds": sorted({block_kind(p["cfg"]) for p in per}),
@@ -1314,5 +1414,6 @@ def run(tier, is_known):
         ],
         "summary": "configs=%d histories=%d transitions=%d comparisons=%d acl-verdicts=%d (denied %d) signatures=%d wall=%.0fs%s" % (
             len(per), tot["nodes"], tot["transitions"], tot["compared"], mon.get("verdicts", 0), mon.get("denied", 0), len(nsig),
-            time.time() - t0, "" if exhaustive else " (capped)"),
+            time.time() - t0, "" if exhaustive else (" (%d configurations skipped: warm-up failed)" % len(warm_failed) if warm_failed
+                                                     else " (capped)")),
     }
